@@ -614,6 +614,41 @@ fn explore_both(report: &mut Report, thorough: bool, seed: u64, which: &'static 
             },
         ));
     }
+    // D-mix: a generic family (`D<T> { v: W<T> }` as D<u8>, D<u16>) AND a two-shape plain family (`Bar { v: W<u8> }`,
+    // `Bar { v: W<u16> }`) in one registry, in both orders: what makes two ids equal inside the generic (the
+    // parameter) does not make them equal anywhere else
+    {
+        let wraps: Vec<(&str, Box<dyn Fn(Ty) -> Ty>)> = vec![
+            ("Vec", Box::new(|t| Ty::Vec(b(t)))),
+            ("Option", Box::new(|t| Ty::Option(b(t)))),
+            ("array", Box::new(|t| Ty::Array(b(t), 2))),
+            ("tuple", Box::new(|t| Ty::Tuple(vec![t, Ty::Prim(Prim::Bool)]))),
+            ("plain", Box::new(|t| t)),
+        ];
+        let mut mix: Vec<Case> = vec![];
+        for (wname, w) in &wraps {
+            for generic_first in [true, false] {
+                let defs = vec![
+                    Def::strukt(&["x", "g"], "D", &["T"], named(vec![("v", w(Ty::Param(0)))])),
+                    Def::strukt(&["x", "c"], "Bar", &[], named(vec![("v", w(U8))])),
+                    Def::strukt(&["x", "c"], "Bar", &[], named(vec![("v", w(U16))])),
+                ];
+                let g = vec![("g0".to_string(), Field::new(Ty::Named(0, vec![U8]))), ("g1".to_string(), Field::new(Ty::Named(0, vec![U16])))];
+                let f = vec![("b0".to_string(), Field::new(Ty::Named(1, vec![]))), ("b1".to_string(), Field::new(Ty::Named(2, vec![])))];
+                let fields: Vec<(String, Field)> = if generic_first { g.into_iter().chain(f).collect() } else { f.into_iter().chain(g).collect() };
+                let mut defs = defs;
+                defs.push(Def::strukt(&["x", "h"], "Host", &[], Fields::Named(fields)));
+                mix.push(Case::new(RegSrc::Prog(Program { defs, roots: vec![Ty::Named(3, vec![])] }), sp.clone(), format!("D-mix({wname}, generic first: {generic_first})")));
+            }
+        }
+        report.add(sweep(
+            "D-mix(a generic family and a two-shape plain family over the same pair of types, 5 wrappers x 2 orders)",
+            &mix,
+            Duration::from_secs(60),
+            |c| c.reg.describe(),
+            |c, ctx| check(c, "plain-family", ctx),
+        ));
+    }
     // D-many: families with 9, 10, 11 and 13 shapes under one path (the suffix is a number, not a digit)
     {
         let prims = Prim::ALL;
